@@ -74,52 +74,90 @@ Record wsess := {
   w_vctl : ctl;
   w_actl : ctl;
   w_tr : transport;
+  w_vch : Z;            (* transport.Channels[ChannelVideo]: interleaved channel of the video RTP track, -1 = not set up *)
+  w_ach : Z;            (* ... of the audio RTP track *)
   w_held : held
 }.
 
 Definition winit_sess (path : bytes) : wsess :=
   {| w_path := path; w_inited := false; w_closed := false; w_status := WInit; w_paused := false;
      w_joined := false; w_vctl := CtlOk []; w_actl := CtlOk [];
-     w_tr := {| t_mode := MdPlay; t_type := TUnknown |}; w_held := HNone |}.
+     w_tr := {| t_mode := MdPlay; t_type := TUnknown |}; w_vch := -1; w_ach := -1; w_held := HNone |}.
 
 Definition wset_inited (s : wsess) : wsess :=
   {| w_path := w_path s; w_inited := true; w_closed := w_closed s; w_status := w_status s;
      w_paused := w_paused s; w_joined := w_joined s; w_vctl := w_vctl s; w_actl := w_actl s;
-     w_tr := w_tr s; w_held := w_held s |}.
+     w_tr := w_tr s; w_vch := w_vch s; w_ach := w_ach s; w_held := w_held s |}.
 Definition wset_closed (s : wsess) : wsess :=
   {| w_path := w_path s; w_inited := w_inited s; w_closed := true; w_status := w_status s;
      w_paused := w_paused s; w_joined := w_joined s; w_vctl := w_vctl s; w_actl := w_actl s;
-     w_tr := w_tr s; w_held := w_held s |}.
+     w_tr := w_tr s; w_vch := w_vch s; w_ach := w_ach s; w_held := w_held s |}.
 Definition wset_status (s : wsess) (x : wstatus) : wsess :=
   {| w_path := w_path s; w_inited := w_inited s; w_closed := w_closed s; w_status := x;
      w_paused := w_paused s; w_joined := w_joined s; w_vctl := w_vctl s; w_actl := w_actl s;
-     w_tr := w_tr s; w_held := w_held s |}.
+     w_tr := w_tr s; w_vch := w_vch s; w_ach := w_ach s; w_held := w_held s |}.
 Definition wset_paused (s : wsess) (x : bool) : wsess :=
   {| w_path := w_path s; w_inited := w_inited s; w_closed := w_closed s; w_status := w_status s;
      w_paused := x; w_joined := w_joined s; w_vctl := w_vctl s; w_actl := w_actl s;
-     w_tr := w_tr s; w_held := w_held s |}.
+     w_tr := w_tr s; w_vch := w_vch s; w_ach := w_ach s; w_held := w_held s |}.
 Definition wset_joined (s : wsess) (x : bool) : wsess :=
   {| w_path := w_path s; w_inited := w_inited s; w_closed := w_closed s; w_status := w_status s;
      w_paused := w_paused s; w_joined := x; w_vctl := w_vctl s; w_actl := w_actl s;
-     w_tr := w_tr s; w_held := w_held s |}.
+     w_tr := w_tr s; w_vch := w_vch s; w_ach := w_ach s; w_held := w_held s |}.
 Definition wset_ctls (s : wsess) (v a : ctl) : wsess :=
   {| w_path := w_path s; w_inited := w_inited s; w_closed := w_closed s; w_status := w_status s;
      w_paused := w_paused s; w_joined := w_joined s; w_vctl := v; w_actl := a;
-     w_tr := w_tr s; w_held := w_held s |}.
+     w_tr := w_tr s; w_vch := w_vch s; w_ach := w_ach s; w_held := w_held s |}.
 Definition wset_tr (s : wsess) (x : transport) : wsess :=
   {| w_path := w_path s; w_inited := w_inited s; w_closed := w_closed s; w_status := w_status s;
      w_paused := w_paused s; w_joined := w_joined s; w_vctl := w_vctl s; w_actl := w_actl s;
-     w_tr := x; w_held := w_held s |}.
+     w_tr := x; w_vch := w_vch s; w_ach := w_ach s; w_held := w_held s |}.
 Definition wset_held (s : wsess) (x : held) : wsess :=
   {| w_path := w_path s; w_inited := w_inited s; w_closed := w_closed s; w_status := w_status s;
      w_paused := w_paused s; w_joined := w_joined s; w_vctl := w_vctl s; w_actl := w_actl s;
-     w_tr := w_tr s; w_held := x |}.
+     w_tr := w_tr s; w_vch := w_vch s; w_ach := w_ach s; w_held := x |}.
 (* Session.process's deferred cleanup: channel deleted from the server's table, consumer
    stopped, both websockets closed, status back to init *)
 Definition wclosed_of (s : wsess) : wsess :=
   {| w_path := w_path s; w_inited := w_inited s; w_closed := true; w_status := WInit;
      w_paused := false; w_joined := false; w_vctl := w_vctl s; w_actl := w_actl s;
-     w_tr := w_tr s; w_held := HNone |}.
+     w_tr := w_tr s; w_vch := w_vch s; w_ach := w_ach s; w_held := HNone |}.
+
+Definition wset_vch (s : wsess) (x : Z) : wsess :=
+  {| w_path := w_path s; w_inited := w_inited s; w_closed := w_closed s; w_status := w_status s;
+     w_paused := w_paused s; w_joined := w_joined s; w_vctl := w_vctl s; w_actl := w_actl s;
+     w_tr := w_tr s; w_vch := x; w_ach := w_ach s; w_held := w_held s |}.
+Definition wset_ach (s : wsess) (x : Z) : wsess :=
+  {| w_path := w_path s; w_inited := w_inited s; w_closed := w_closed s; w_status := w_status s;
+     w_paused := w_paused s; w_joined := w_joined s; w_vctl := w_vctl s; w_actl := w_actl s;
+     w_tr := w_tr s; w_vch := w_vch s; w_ach := x; w_held := w_held s |}.
+
+(* ------------------------------------------------------------------ the interleaved channel of a track
+   RTPTransport.ParseTransport stores, token by token, the first number of every "interleaved=b-e"
+   (parseRange: b >= 0) in Channels[track]; the value stays when a later token is malformed or the
+   SETUP is refused, and across SETUPs.  (The rest of ParseTransport is C12RtspSession.parse_transport.) *)
+Definition range_begin (p : bytes) : Z :=
+  let s1 := match cut 45 p with None => p | Some (a, _) => trim_space a end in
+  match s1 with
+  | [] => -1
+  | _ => match atoi s1 with Some v => v | None => -1 end
+  end.
+Definition chan_step (ch : Z) (tok : bytes) : Z :=
+  let '(k, v) := pair_scan tok in
+  if bytes_eqb k C12Lit.k_interleaved
+  then let b := range_begin v in if 0 <=? b then b else ch
+  else ch.
+Definition parse_channel (ch0 : Z) (ts : bytes) : Z :=
+  match cut 59 ts with
+  | None => ch0
+  | Some (spec0, rest) =>
+      let spec := trim_space spec0 in
+      if bytes_eqb spec C12Lit.k_avp_tcp || bytes_eqb spec C12Lit.k_avp || bytes_eqb spec C12Lit.k_avp_udp
+      then fold_left chan_step (List.map trim_space (split_on 59 rest)) ch0
+      else ch0
+  end.
+(* rtp.Packet.Write sends a packet only on a channel 0..255 *)
+Definition chan_ok (ch : Z) : bool := (0 <=? ch) && (ch <=? 255).
 
 (* ------------------------------------------------------------------ the RTSP handlers *)
 Definition wresp (code : Z) (q : wreq) : response :=
@@ -151,7 +189,11 @@ Definition wdo_setup (s : wsess) (q : wreq) : wsess * Z :=
         let a := match w_actl s with CtlOk a => a | CtlBad => [] end in
         if ctl_match (wq_url q) a || ctl_match (wq_url q) v then
           let '(t, err) := parse_transport (w_tr s) (wq_transport q) in
-          let s1 := wset_tr s t in
+          (* the audio control is tried first; the matched track's channel is parsed from the header *)
+          let s0 := if ctl_match (wq_url q) a
+                    then wset_ach s (parse_channel (w_ach s) (wq_transport q))
+                    else wset_vch s (parse_channel (w_vch s) (wq_transport q)) in
+          let s1 := wset_tr s0 t in
           if err then (s1, 451)
           else if negb (smode_eqb (t_mode t) MdPlay) then (s1, 451)
           else if negb (ttype_eqb (t_type t) TTcp) then (s1, 461)
@@ -256,20 +298,24 @@ Definition wdisconnect (s : wsess) : wsess * list effect :=
   else if w_inited s then (wclosed_of s, [ERelease (w_held s); EClose])
   else (wset_closed s, [EClose]).
 
-(* Session.Consume: a packet of the consumed stream reaches the client *)
+(* Session.Consume: packets of the consumed stream are passed on to the data channel ... *)
 Definition wflows (s : wsess) : bool :=
   wstatus_eqb (w_status s) WPlaying && negb (w_paused s) && w_joined s && negb (w_closed s).
+(* ... those of a track that was set up with an interleaved channel (rtp.Packet.Write writes nothing
+   for the others and Consume then sends nothing) *)
+Definition wtracks (s : wsess) : bool := chan_ok (w_vch s) || chan_ok (w_ach s).
 
 (* ------------------------------------------------------------------ runs and observations *)
 Record wobs_step := {
   wo_resps : list wresponse;
   wo_eof : bool;                 (* the server closed the control channel *)
   wo_reg : list (Z * Z);         (* registry (C12RtspSession.registry) of the watched paths *)
-  wo_media : bool                (* media arrived on a data channel in this step *)
+  wo_media : bool                (* an RTP frame arrived on a data channel in this step (a video and an
+                                    audio packet are published into every stream after each step) *)
 }.
 
 Definition wmedia_of (ext : list bytes) (s : wsess) : bool :=
-  wflows s && match w_held s with HCons p => bytes_in p ext | _ => false end.
+  wflows s && wtracks s && match w_held s with HCons p => bytes_in p ext | _ => false end.
 
 Fixpoint wrun_gen (fixed : bool) (e : env) (watch ext : list bytes) (s : wsess) (rqs : list wrequest)
   : list wobs_step * wsess :=
